@@ -22,6 +22,7 @@ import (
 	dtpb "github.com/google/fhir/go/proto/google/fhir/proto/r4/core/datatypes_go_proto"
 	bcrpb "github.com/google/fhir/go/proto/google/fhir/proto/r4/core/resources/bundle_and_contained_resource_go_proto"
 	"github.com/iancoleman/strcase"
+	"github.com/verily-src/fhirpath-go/fhirpath"
 	"github.com/verily-src/fhirpath-go/fhirpath/patch"
 	"github.com/verily-src/fhirpath-go/fhirpath/system"
 	"github.com/verily-src/fhirpath-go/internal/containedresource"
@@ -444,6 +445,24 @@ func runC18(c *Ctx) {
 			}
 		}
 	}
+	// hand-made resources: numeric and coded elements that carry an id and extensions of their own (a replacement
+	// substitutes the whole element), lists of three and more (removing an item keeps the order of the others)
+	for _, hm := range []struct{ tn, js string }{
+		{"Patient", `{"resourceType":"Patient","id":"h1","multipleBirthInteger":2,"_multipleBirthInteger":{"id":"mb","extension":[{"url":"http://example.org/x","valueString":"kept?"}]},
+		  "telecom":[{"value":"111","rank":1,"_rank":{"id":"rank-1","extension":[{"url":"http://example.org/r","valueCode":"a"}]}},{"value":"222","rank":2,"_rank":{"id":"rank-2"}},{"value":"333","rank":3},{"value":"444"}],
+		  "name":[{"given":["Ada","Betty","Cleo","Dora"],"family":"F"},{"given":["Eve"]},{"given":["Fay","Gil","Hal"]}],"gender":"male","_gender":{"id":"g","extension":[{"url":"http://example.org/g","valueBoolean":true}]}}`},
+		{"ImagingStudy", `{"resourceType":"ImagingStudy","id":"h2","status":"available","subject":{"reference":"Patient/h1"},"numberOfSeries":4,"_numberOfSeries":{"id":"nos","extension":[{"url":"http://example.org/n","valueInteger":9}]},
+		  "numberOfInstances":0,"_numberOfInstances":{"extension":[{"url":"http://example.org/i","valueString":"z"}]},"series":[{"uid":"1.2","modality":{"code":"CT"},"number":1,"_number":{"id":"n1"}},{"uid":"1.3","modality":{"code":"MR"},"number":2},{"uid":"1.4","modality":{"code":"US"}}]}`},
+	} {
+		res := mustResource(hm.js)
+		g := &ResGen{r: c.rng, maxDepth: 2, density: 50}
+		c.Count("resource:hand-made " + hm.tn)
+		for rep := 0; rep < 3; rep++ {
+			for _, op := range c18Ops(c, g, hm.tn, res) {
+				runPatchOp(c, res, op)
+			}
+		}
+	}
 	// nil resource
 	for _, kind := range []string{"add", "insert", "delete", "replace"} {
 		pe, err := patch.Compile("Patient.name")
@@ -730,6 +749,11 @@ func runPatchOp(c *Ctx, orig fhir.Resource, op patchOp) {
 			operr = pe.Replace(res, value)
 		case "move":
 			operr = pe.Move(res, 0, 1)
+			for _, ix := range [][2]int{{0, 0}, {1, 1}, {1, 0}, {-1, -1}, {-3, -3}, {7, 7}, {2147483647, 2147483647}} {
+				if e2 := pe.Move(res, ix[0], ix[1]); !errors.Is(e2, patch.ErrNotImplemented) {
+					operr = fmt.Errorf("Move(%d, %d) returned %v", ix[0], ix[1], e2)
+				}
+			}
 		}
 		return nil
 	})
@@ -778,7 +802,14 @@ func runPatchOp(c *Ctx, orig fhir.Resource, op patchOp) {
 				// a single existing element selected through a filter is patchable like the element itself:
 				// delete / replace of it with a right-typed value is not refused
 				if (op.kind == "delete" || op.kind == "replace") && (suffix == ".where(true)" || suffix == ".where($this.exists())" || suffix == ".first()" || suffix == ".last()") {
-					c.Law(false, "C18/refused", "delete / replace of the single element selected by a where(), first() or last() filter performs the JSON-tree operation", in, "refused: "+operr.Error())
+					// ... whenever the implementation patches that element when it is named by its index
+					// (targets it refuses by any route, e.g. extensions of primitive elements, are
+					// "unpatchable targets" in the property's sense)
+					if plainAccepted(orig, op, suffix, value) {
+						c.Law(false, "C18/refused", "delete / replace of the single element selected by a where(), first() or last() filter is performed when the same element named by index is", in, "refused: "+operr.Error())
+					} else {
+						c.Count("refused-by-index-too:" + op.kind)
+					}
 				}
 			}
 		}
@@ -1007,4 +1038,45 @@ func removeAt(n pnode) {
 	if len(items) == 0 {
 		r.Clear(n.fd)
 	}
+}
+
+// plainAccepted reports whether the operation succeeds on a copy of the resource when the filter
+// suffix of its path is replaced by the index of the element the filter selects.
+func plainAccepted(orig fhir.Resource, op patchOp, suffix string, value fhir.Base) bool {
+	base := strings.TrimSuffix(op.path, suffix)
+	cp := proto.Clone(orig).(fhir.Resource)
+	idx := 0
+	if suffix == ".last()" {
+		ce, err := fhirpath.Compile(base + ".count()")
+		if err != nil {
+			return false
+		}
+		r, err := ce.Evaluate([]fhir.Resource{cp})
+		if err != nil || len(r) != 1 {
+			return false
+		}
+		n, ok := r[0].(system.Integer)
+		if !ok || n < 1 {
+			return false
+		}
+		idx = int(n) - 1
+	}
+	pe, err := patch.Compile(fmt.Sprintf("%s[%d]", base, idx))
+	if err != nil {
+		return false
+	}
+	var operr error
+	_, pan, _ := safeErr(func() error {
+		if op.kind == "delete" {
+			operr = pe.Delete(cp)
+		} else {
+			var v fhir.Base
+			if value != nil {
+				v = proto.Clone(value).(fhir.Base)
+			}
+			operr = pe.Replace(cp, v)
+		}
+		return nil
+	})
+	return !pan && operr == nil
 }
